@@ -56,7 +56,7 @@ Section E2E.
   Variable deqb : D -> D -> bool.
   Variable f_eq_Z : F -> Z -> bool.
   Variable show_float : F -> str.
-  Variable parse_float : str -> option F.
+  Variable parse_float : bool -> str -> option F.
   Variable show_time_iso show_time_str : T -> str.
   Variable parse_time_np parse_time_fmt parse_time_pd : str -> option T.
   Variable parse_delta : str -> option D.
@@ -119,7 +119,7 @@ Section E2E.
   Definition wf (k : kind) (v : value) : Prop :=
     match k, v with
     | KInt sg bits, VInt z => in_range sg bits z = true
-    | KBool, VBool _ | KStr, VStr _ | KFloat, VFloat _ | KTime _, VTime _ => True
+    | KBool, VBool _ | KStr, VStr _ | KFloat _, VFloat _ | KTime _, VTime _ => True
     | KCat, VCat (VStr _) => True
     | _, _ => False
     end.
@@ -1140,4 +1140,4 @@ Definition cwrite (hive : bool) (names : list str) (chunks : list (list (row E0 
     (fun f => match f with end) (fun t => match t with end) (fun t => match t with end) nat hive names chunks.
 Definition cread (pm : list (str * kind)) (files : list (str * list (row E0 E0 E0 nat))) :=
   read_model E0 E0 E0 e0_eqb e0_eqb e0_eqb (fun _ _ => false)
-    (fun _ => None) (fun _ => None) (fun _ => None) (fun _ => None) (fun _ => None) nat pm (fun l => l) files.
+    (fun _ _ => None) (fun _ => None) (fun _ => None) (fun _ => None) (fun _ => None) nat pm (fun l => l) files.
